@@ -92,7 +92,7 @@ def r1(ctx):
                 chain.append(n_["m"])
                 n_ = peel(n_["recv"], methods=False)
             chains[x["pat"]["name"]] = tuple(c for c in chain if c not in ("to_datetime",))
-    ok = len(chains) >= 3 and len(set(chains.values())) == 1
+    ok = len(chains) >= 2 and len(set(chains.values())) == 1
     ctx.obligation(ok)
     ctx.covered("conversion chains of dt/start/finish to comparable seconds", len(chains), distinct_keys=chains,
                 sample={k: list(v) for k, v in chains.items()})
